@@ -3,6 +3,7 @@
   and what `readSearchKeyWithAtom` makes of it.
 -/
 import GoImap.Lemmas.CmdGrammarListCmd
+import GoImap.Lemmas.CmdGrammarLitSet
 namespace GoImap.CmdLemmas
 open GoImap.CmdGrammar GoImap.CmdSpec
 
